@@ -221,6 +221,10 @@ func (vc *VC) heapGet(st *State, comp, sort string) Term {
 		vc.compSort[comp] = sort
 	}
 	if t, ok := st.heap[comp]; ok {
+		// a base name cached during a rolled-back dry run must be declared again
+		if strings.HasPrefix(t, "H.") && !strings.ContainsAny(t, " (") && !vc.declared[t] && strings.Contains(t, ".e") && !strings.Contains(t, "!") {
+			vc.declare(t, vc.compSort[comp])
+		}
 		return t
 	}
 	t := vc.compBaseName(comp, st.ep)
